@@ -13,10 +13,10 @@ let z_of_int (n : int) : z =
 
 (* decimal string <-> Z without going through OCaml int (values may exceed 2^62) *)
 let z_ten = z_of_int 10
-let z_of_string (s : string) : z =
-  let neg = String.length s > 0 && s.[0] = '-' in
+let z_of_string (s : Stdlib.String.t) : z =
+  let neg = Stdlib.String.length s > 0 && s.[0] = '-' in
   let acc = ref Z0 in
-  String.iteri (fun i ch ->
+  Stdlib.String.iteri (fun i ch ->
     if i = 0 && neg then () else
     acc := Z.add (Z.mul !acc z_ten) (z_of_int (Char.code ch - 48))) s;
   if neg then Z.opp !acc else !acc
@@ -46,14 +46,14 @@ let string_of_pos p =
   | Some v -> string_of_int v
   | None ->
     let ds = pos_to_string_aux p in
-    String.concat "" (List.rev_map string_of_int ds)
+    Stdlib.String.concat "" (List.rev_map string_of_int ds)
 
 let string_of_z = function
   | Z0 -> "0"
   | Zpos p -> string_of_pos p
   | Zneg p -> "-" ^ string_of_pos p
 
-let entries : (string * (z list -> z list)) list = Entries.table
+let entries : (Stdlib.String.t * (z list -> z list)) list = Entries.table
 
 let () =
   let name = Sys.argv.(1) in
@@ -64,12 +64,12 @@ let () =
   (try
     while true do
       let line = input_line ic in
-      let line = match String.index_opt line '#' with
-        | Some i -> String.sub line 0 i | None -> line in
-      let toks = List.filter (fun s -> s <> "") (String.split_on_char ' ' (String.trim line)) in
+      let line = match Stdlib.String.index_opt line '#' with
+        | Some i -> Stdlib.String.sub line 0 i | None -> line in
+      let toks = List.filter (fun s -> s <> "") (Stdlib.String.split_on_char ' ' (Stdlib.String.trim line)) in
       let inp = List.map z_of_string toks in
       let out = f inp in
-      Buffer.add_string buf (String.concat " " (List.map string_of_z out));
+      Buffer.add_string buf (Stdlib.String.concat " " (List.map string_of_z out));
       Buffer.add_char buf '\n';
       if Buffer.length buf > 60000 then (print_string (Buffer.contents buf); Buffer.clear buf)
     done
